@@ -6,3 +6,4 @@ pub mod model;
 pub mod reader;
 pub mod refmodel;
 pub mod report;
+pub mod sched;
